@@ -9,6 +9,8 @@ extern "C" {
 #include "json_visit.h"
 #include "json_util.h"
 long verif_alloc_live(void);
+long verif_alloc_peak(void);
+void verif_alloc_peak_reset(void);
 long verif_locale_live(void);
 void verif_alloc_arm(long k, long k2);
 long verif_alloc_disarm(void);
